@@ -1,5 +1,10 @@
+# setup builds the runtime and lets the machinery check itself (litmus tests, lock/condvar/time
+# models, detectors) before any verdict is trusted
 setup:
 	./verif setup
+	./verif selftest
+selftest:
+	./verif selftest
 manifest:
 	python3 tools/gen_manifest.py
-.PHONY: setup manifest
+.PHONY: setup selftest manifest
